@@ -139,6 +139,20 @@ theorem decodeScalar_lone (cast : Kind → Str → Option Val) (fl : Flags) (hfl
   | none => simp; rfl
   | some w => cases w <;> simp <;> rfl
 
+/-- what the cast stores in a float32 is within its range -/
+theorem castFloat_fits (bits : Nat) (d g : Dec) (h : castFloat bits d = some g) :
+    (bits != 32 || g.absLeNat maxFloat32) = true := by
+  unfold castFloat at h
+  by_cases h1 : d.absLtNat (floatLimit bits) = true
+  · simp only [h1, Bool.not_true, Bool.false_eq_true, if_false] at h
+    by_cases hb : bits = 32
+    · subst hb
+      by_cases h2 : d.absLeNat maxFloat32 = true
+      · simp [h2] at h; subst h; simp [h2]
+      · simp [h2] at h; subst h; simp [Dec.absLeNat]
+    · simp [hb]
+  · simp [h1] at h
+
 theorem cast_agrees (env : Env) (k : Kind) (d : DVal) (s raw : Str) (hres : resolve env s = .text raw true) :
     (∀ w, castExpect k raw = some w → decodeScalarWith castTo repoFlags env k d (.str s) = { val := w }) ∧
     (castExpect k raw = none →
@@ -170,7 +184,12 @@ theorem cast_agrees (env : Env) (k : Kind) (d : DVal) (s raw : Str) (hres : reso
     simp only [castTo, castExpect]
     cases parseDecLit raw with
     | none => simp [decodeKind, R.fail]
-    | some f => simp [decodeKind]
+    | some f =>
+      cases hc : castFloat bits f with
+      | none => simp [hc, decodeKind, R.fail]
+      | some g =>
+        have := castFloat_fits bits f g hc
+        simp [hc, decodeKind, this]
   | dur =>
     simp only [castTo, castExpect]
     cases parseIntLit raw with
@@ -226,12 +245,45 @@ theorem decodeKind_rejects (k : Kind) (d : DVal) (v : Val) (h : accepts k v = fa
 theorem decodeScalar_nonstring (cast : Kind → Str → Option Val) (fl : Flags) (env : Env) (k : Kind) (d : DVal) (v : Val)
     (hs : ∀ s, v ≠ .str s) :
     decodeScalarWith cast fl env k d v =
-      if fl.wholeNumbers && intKind k && fractional v then R.fail d .type else decodeKind k d v := by
+      if fl.wholeNumbers && intKind k && fractional v then R.fail d .type
+      else if fl.numberRange && !fitsKind k v then R.fail d .type else decodeKind k d v := by
   cases v <;> simp_all [decodeScalarWith]
 
 theorem decodeScalar_plain (cast : Kind → Str → Option Val) (fl : Flags) (env : Env) (k : Kind) (d : DVal) (s : Str)
     (hk : k ≠ .dur) (h : resolve env s = .plain) : decodeScalarWith cast fl env k d (.str s) = decodeKind k d (.str s) := by
   have : (k == Kind.dur) = false := by simp [hk]
   simp [decodeScalarWith, this, h]
+
+/-! ## truncation of a decimal -/
+
+theorem Dec.trunc_eq (x : Dec) :
+    x.trunc = if x.neg then - ((x.mant / 10 ^ x.exp : Nat) : Int) else ((x.mant / 10 ^ x.exp : Nat) : Int) := rfl
+
+theorem Dec.trunc_nonneg_of_not_neg (x : Dec) (h : ¬ (x.neg = true ∧ x.isZero = false)) : 0 ≤ x.trunc := by
+  rw [Dec.trunc_eq]
+  by_cases hn : x.neg = true
+  · have hz : x.isZero = true := by
+      cases hz : x.isZero with
+      | true => rfl
+      | false => exact absurd ⟨hn, hz⟩ h
+    have hm : x.mant = 0 := by simpa [Dec.isZero] using hz
+    rw [if_pos hn, hm]
+    simp
+  · rw [if_neg hn]
+    exact Int.natCast_nonneg _
+
+theorem Dec.trunc_nonneg_not_neg (x : Dec) (hw : x.isWhole = true) (h0 : 0 ≤ x.trunc) : (x.neg && !x.isZero) = false := by
+  by_cases hn : x.neg = true
+  · have hq : x.mant / 10 ^ x.exp = 0 := by
+      rw [Dec.trunc_eq, if_pos hn] at h0
+      have := Int.natCast_nonneg (x.mant / 10 ^ x.exp)
+      omega
+    have hm : x.mant % 10 ^ x.exp = 0 := by simpa [Dec.isWhole] using hw
+    have : x.mant = 0 := by
+      have := Nat.div_add_mod x.mant (10 ^ x.exp)
+      rw [hq, hm] at this
+      simpa using this.symm
+    simp [Dec.isZero, this]
+  · simp [hn]
 
 end Pandora.Proofs.C17
